@@ -282,11 +282,16 @@ def worker_main(jobfile):
 
     for call in job["calls"]:
         op = call["op"]
-        inp = None
+        inp = watch = None
         if op == "dict":
             inp = copy.deepcopy(problems[call["p"]])
         elif op == "model":
             inp = objs[call["obj"]]
+            if call.get("as_dict"):
+                # a plain dict whose rows ARE the stored object's validated rows (pydantic keeps model instances when it validates a
+                # dict): the stored object is what must stay untouched
+                watch = inp
+                inp = dict(streams=list(watch.streams), utilities=list(watch.utilities), options=watch.options, zone_tree=watch.zone_tree)
         elif op == "load":
             if "model" in call["src"]:
                 inp = objs[call["src"]["model"]]
@@ -301,7 +306,7 @@ def worker_main(jobfile):
                 pp = pps[call["pid"]] = PinchProblem()
             if op != "load":
                 inp = pp.problem_data
-        ib = _input_digest(inp)
+        ib = _input_digest(watch if watch is not None else inp)
         d0, g0 = _worker_snapshot()
         err, errmsg, res = None, None, None
         try:
@@ -321,7 +326,7 @@ def worker_main(jobfile):
         if op == "load" and inp is None:
             inp_after = None
         else:
-            inp_after = inp
+            inp_after = watch if watch is not None else inp
         ia = _input_digest(inp_after)
         robj = -1
         if res is not None:
@@ -421,6 +426,8 @@ def gen_history(rng, pool, maxcalls=6):
         if rng.random() < w_service:
             if objects and rng.random() < (0.5 if mode != "reuse" else 0.85):
                 calls.append(dict(op="model", pn=pn, obj=rng.randrange(nobj) if rng.random() < 0.5 else 0))
+                if rng.random() < 0.3:
+                    calls[-1]["as_dict"] = True
             else:
                 calls.append(dict(op="dict", pn=pn, p=rng.randrange(nprob)))
         else:
@@ -494,6 +501,9 @@ def corpus():
         ("D5 [A; B] dicts", dict(problems=[PA, PB], names=N[:2], objects=[], calls=[dict(op="dict", pn=1, p=0), dict(op="dict", pn=1, p=1)])),
         ("D6 [m; m] same model object", dict(problems=[PA], names=N[:2], objects=[dict(problem=0)],
                                              calls=[dict(op="model", pn=1, obj=0), dict(op="model", pn=1, obj=0)])),
+        ("D58 [dict of m's rows; same again; m] rows of a validated object passed inside a plain dict",
+         dict(problems=[PA], names=N[:2], objects=[dict(problem=0)],
+              calls=[dict(op="model", pn=1, obj=0, as_dict=True), dict(op="model", pn=1, obj=0, as_dict=True), dict(op="model", pn=1, obj=0)])),
         ("D11 [load A; target; load B; target]", dict(problems=[PA, PB], names=N[:2], objects=[],
                                                       calls=[dict(op="load", pid=0, src=dict(file=1, p=0)), dict(op="target", pid=0),
                                                              dict(op="load", pid=0, src=dict(file=1, p=1)), dict(op="target", pid=0)])),
